@@ -24,11 +24,12 @@ fn scenario(rng: &mut Rng, steps: usize, async_persist: bool, with_disc: bool) -
 		let connected = linked && (0..2).all(|i| net.nodes[i].node.list_channels().get(0).map(|c| c.is_usable).unwrap_or(false));
 		// targeted: reconnect while a monitor update is still in flight (retransmission must stay gated)
 		if with_disc && linked && rng.chance(1, 5) && (0..2).any(|i| !net.pending_updates(i, c).is_empty()) {
-			net.disconnect(0, 1); net.reconnect(0, 1);
+			net.disconnect(0, 1); net.trace.push(Obs::Event { node: 0, text: "DISCONNECT".into() });
+			net.reconnect(0, 1); net.trace.push(Obs::Event { node: 0, text: "RECONNECT".into() });
 			for _ in 0..6 { if let Some((i, j)) = net.any_queued() { net.deliver(i, j); } }
 			net.sample_balances(c); continue;
 		}
-		if with_disc && rng.chance(1, 14) { if linked { net.disconnect(0, 1); } else { net.reconnect(0, 1); } net.sample_balances(c); continue; }
+		if with_disc && rng.chance(1, 14) { if linked { net.disconnect(0, 1); net.trace.push(Obs::Event { node: 0, text: "DISCONNECT".into() }); } else { net.reconnect(0, 1); net.trace.push(Obs::Event { node: 0, text: "RECONNECT".into() }); } net.sample_balances(c); continue; }
 		match rng.below(16) {
 			0 | 1 | 2 if connected => {
 				let (a, b) = if rng.chance(1, 2) { (0, 1) } else { (1, 0) };
@@ -95,7 +96,7 @@ fn scenario(rng: &mut Rng, steps: usize, async_persist: bool, with_disc: bool) -
 		net.sample_balances(c);
 	}
 	// drain: reconnect, complete everything, deliver everything
-	if !net.connected.contains(&(0, 1)) { net.reconnect(0, 1); }
+	if !net.connected.contains(&(0, 1)) { net.reconnect(0, 1); net.trace.push(Obs::Event { node: 0, text: "RECONNECT".into() }); }
 	for i in 0..2 { net.set_mode(i, false); }
 	for _ in 0..40 {
 		for i in 0..2 { for id in net.pending_updates(i, c) { net.complete(i, c, id); } }
@@ -177,121 +178,6 @@ fn probe_bad_raa(flip_secret: bool, after_updates: usize) -> Option<String> {
 	if rejected && gone { None } else { Some(format!("a revoke_and_ack with a corrupted per_commitment_secret (flip_secret={}, after {} updates) was not refused (protocol error seen: {}, channel unusable: {})", flip_secret, after_updates, rejected, gone)) }
 }
 
-/// Deterministic probe for C09 (known finding KF-C09-1): an inbound channel whose INITIAL monitor persist is still
-/// InProgress sees the funding confirmation and the peer's channel_ready; after a reconnect `channel_reestablish`
-/// retransmits channel_ready although the initial ChannelMonitor has not been reported durable.
-fn probe_channel_ready_leak() -> Option<String> {
-	use lightning::chain::ChannelMonitorUpdateStatus;
-	use lightning::ln::functional_test_utils::*;
-	use lightning::ln::msgs::{self, BaseMessageHandler, ChannelMessageHandler, MessageSendEvent};
-	let net = Net::new(2, vec![None, None]);
-	let nodes = &net.nodes;
-	let (a, b) = (net.ids[0], net.ids[1]);
-	fn take<F: Fn(&MessageSendEvent) -> bool>(evs: Vec<MessageSendEvent>, f: F) -> Option<MessageSendEvent> { evs.into_iter().find(|e| f(e)) }
-	nodes[0].node.create_channel(b, 100000, 10001, 43, None, None).ok()?;
-	let open = match take(nodes[0].node.get_and_clear_pending_msg_events(), |e| matches!(e, MessageSendEvent::SendOpenChannel { .. }))? { MessageSendEvent::SendOpenChannel { msg, .. } => msg, _ => return None };
-	handle_and_accept_open_channel(&nodes[1], a, &open);
-	let accept = match take(nodes[1].node.get_and_clear_pending_msg_events(), |e| matches!(e, MessageSendEvent::SendAcceptChannel { .. }))? { MessageSendEvent::SendAcceptChannel { msg, .. } => msg, _ => return None };
-	nodes[0].node.handle_accept_channel(b, &accept);
-	let (temp_id, funding_tx, _) = create_funding_transaction(&nodes[0], &b, 100000, 43);
-	nodes[0].node.funding_transaction_generated(temp_id, b, funding_tx.clone()).ok()?;
-	net.persisters[1].set_update_ret(ChannelMonitorUpdateStatus::InProgress);
-	let created = match take(nodes[0].node.get_and_clear_pending_msg_events(), |e| matches!(e, MessageSendEvent::SendFundingCreated { .. }))? { MessageSendEvent::SendFundingCreated { msg, .. } => msg, _ => return None };
-	nodes[1].node.handle_funding_created(a, &created);
-	let signed = match take(nodes[1].node.get_and_clear_pending_msg_events(), |e| matches!(e, MessageSendEvent::SendFundingSigned { .. }))? { MessageSendEvent::SendFundingSigned { msg, .. } => msg, _ => return None };
-	nodes[0].node.handle_funding_signed(b, &signed);
-	let _ = nodes[0].node.get_and_clear_pending_events();
-	confirm_transaction(&nodes[0], &funding_tx);
-	let ready_a = match take(nodes[0].node.get_and_clear_pending_msg_events(), |e| matches!(e, MessageSendEvent::SendChannelReady { .. }))? { MessageSendEvent::SendChannelReady { msg, .. } => msg, _ => return None };
-	nodes[1].node.handle_channel_ready(a, &ready_a);
-	confirm_transaction(&nodes[1], &funding_tx);
-	// while connected and in flight nothing may be released
-	let early = nodes[1].node.get_and_clear_pending_msg_events().iter().any(|e| matches!(e, MessageSendEvent::SendChannelReady { .. }));
-	let pending = !nodes[1].chain_monitor.chain_monitor.list_pending_monitor_updates().values().all(|v| v.is_empty());
-	nodes[0].node.peer_disconnected(b); nodes[1].node.peer_disconnected(a);
-	let init_b = msgs::Init { features: nodes[1].node.init_features(), networks: None, remote_network_address: None };
-	let init_a = msgs::Init { features: nodes[0].node.init_features(), networks: None, remote_network_address: None };
-	nodes[0].node.peer_connected(b, &init_b, true).ok()?;
-	let re_a = match take(nodes[0].node.get_and_clear_pending_msg_events(), |e| matches!(e, MessageSendEvent::SendChannelReestablish { .. }))? { MessageSendEvent::SendChannelReestablish { msg, .. } => msg, _ => return None };
-	nodes[1].node.peer_connected(a, &init_a, false).ok()?;
-	let _ = nodes[1].node.get_and_clear_pending_msg_events();
-	nodes[1].node.handle_channel_reestablish(a, &re_a);
-	let leaked = nodes[1].node.get_and_clear_pending_msg_events().iter().any(|e| matches!(e, MessageSendEvent::SendChannelReady { .. }));
-	let still_pending = !nodes[1].chain_monitor.chain_monitor.list_pending_monitor_updates().values().all(|v| v.is_empty());
-	std::mem::forget(net);
-	if early { return Some("channel_ready released while the initial monitor persist was in flight (connected case)".into()); }
-	if leaked && pending && still_pending { Some("KF-C09-1 channel_reestablish retransmits channel_ready while the INITIAL ChannelMonitor persist of the inbound channel is still InProgress (funding confirmed and peer's channel_ready received before the completion; reconnect)".into()) } else { None }
-}
-
-/// C09 "exactly the held messages are released": an inbound channel whose initial monitor persist is InProgress, under
-/// EVERY order of {funding confirms at B, A's channel_ready arrives, disconnect, reconnect, persist completes}.
-/// Returns oracle messages (KF-C09-1-tagged for the known early retransmission on reestablish).
-fn probe_open_orders() -> Vec<String> {
-	use lightning::chain::ChannelMonitorUpdateStatus;
-	use lightning::ln::functional_test_utils::*;
-	use lightning::ln::msgs::{BaseMessageHandler, ChannelMessageHandler, MessageSendEvent};
-	let mut out = vec![];
-	let mut orders: Vec<Vec<u8>> = vec![];
-	fn perms(cur: &mut Vec<u8>, used: &mut [bool; 5], acc: &mut Vec<Vec<u8>>) {
-		if cur.len() == 5 { acc.push(cur.clone()); return; }
-		for e in 0..5u8 { if used[e as usize] { continue; } if e == 3 && !used[2] { continue; } used[e as usize] = true; cur.push(e); perms(cur, used, acc); cur.pop(); used[e as usize] = false; }
-	}
-	perms(&mut vec![], &mut [false; 5], &mut orders);
-	for order in orders {
-		let r = guarded(std::panic::AssertUnwindSafe(|| -> Option<Vec<String>> {
-			let mut v = vec![];
-			let mut net = Net::new(2, vec![None, None]);
-			let (a, b) = (net.ids[0], net.ids[1]);
-			let take = |evs: Vec<MessageSendEvent>, want: &str| evs.into_iter().find(|e| format!("{:?}", e).starts_with(want));
-			net.nodes[0].node.create_channel(b, 100000, 10001, 43, None, None).ok()?;
-			let open = match take(net.nodes[0].node.get_and_clear_pending_msg_events(), "SendOpenChannel")? { MessageSendEvent::SendOpenChannel { msg, .. } => msg, _ => return None };
-			handle_and_accept_open_channel(&net.nodes[1], a, &open);
-			let accept = match take(net.nodes[1].node.get_and_clear_pending_msg_events(), "SendAcceptChannel")? { MessageSendEvent::SendAcceptChannel { msg, .. } => msg, _ => return None };
-			net.nodes[0].node.handle_accept_channel(b, &accept);
-			let (temp_id, funding_tx, _) = create_funding_transaction(&net.nodes[0], &b, 100000, 43);
-			net.nodes[0].node.funding_transaction_generated(temp_id, b, funding_tx.clone()).ok()?;
-			net.persisters[1].set_update_ret(ChannelMonitorUpdateStatus::InProgress);
-			let created = match take(net.nodes[0].node.get_and_clear_pending_msg_events(), "SendFundingCreated")? { MessageSendEvent::SendFundingCreated { msg, .. } => msg, _ => return None };
-			net.nodes[1].node.handle_funding_created(a, &created);
-			let signed = match take(net.nodes[1].node.get_and_clear_pending_msg_events(), "SendFundingSigned")? { MessageSendEvent::SendFundingSigned { msg, .. } => msg, _ => return None };
-			net.nodes[0].node.handle_funding_signed(b, &signed);
-			let _ = net.nodes[0].node.get_and_clear_pending_events();
-			let cid = net.nodes[0].node.list_channels().get(0)?.channel_id;
-			confirm_transaction(&net.nodes[0], &funding_tx);
-			net.pump(0); // A's channel_ready is now queued 0 -> 1
-			let mut completed = false;
-			let mut after_reconnect = false;
-			for ev in &order {
-				let n_before = net.trace.len();
-				match ev {
-					0 => { confirm_transaction(&net.nodes[1], &funding_tx); net.pump(1); },
-					1 => { while net.queued(0, 1) > 0 { net.deliver(0, 1); } },
-					2 => { net.disconnect(0, 1); },
-					3 => { net.reconnect(0, 1); for _ in 0..12 { if let Some((i, j)) = net.any_queued() { net.deliver(i, j); } } after_reconnect = true; },
-					_ => { for id in net.nodes[1].chain_monitor.chain_monitor.list_pending_monitor_updates().get(&cid).cloned().unwrap_or_default() { let _ = net.nodes[1].chain_monitor.chain_monitor.channel_monitor_updated(cid, id); } net.pump(1); completed = true; },
-				}
-				let b_ready = net.trace[n_before..].iter().any(|o| matches!(o, Obs::Msg { from: 1, kind: "ready", .. }));
-				if b_ready && !completed {
-					if after_reconnect && *ev == 3 { v.push("KF-C09-1 channel_reestablish retransmits channel_ready while the INITIAL ChannelMonitor persist of the inbound channel is still InProgress".to_string()); }
-					else { v.push(format!("channel_ready released by the inbound side before its initial monitor persist completed (event order {:?}, at event {})", order, ev)); }
-				}
-				after_reconnect = false;
-			}
-			if !net.connected.contains(&(0, 1)) { net.reconnect(0, 1); }
-			for _ in 0..40 { if let Some((i, j)) = net.any_queued() { net.deliver(i, j); } else { break; } }
-			net.pump_all();
-			for _ in 0..40 { if let Some((i, j)) = net.any_queued() { net.deliver(i, j); } else { break; } }
-			let usable = (0..2).all(|i| net.nodes[i].node.list_channels().get(0).map(|c| c.is_channel_ready).unwrap_or(false));
-			if !usable { v.push(format!("held channel_ready never released: after every event of order {:?} happened and all messages were delivered, the channel is not ready on both sides", order)); }
-			std::mem::forget(net);
-			Some(v)
-		}));
-		match r { Ok(Some(v)) => out.extend(v), Ok(None) => {}, Err(p) => out.push(format!("open-order probe {:?} panicked: {}", order, p.chars().take(160).collect::<String>())) }
-	}
-	out.sort(); out.dedup();
-	out
-}
-
 fn nm(i: usize) -> &'static str { if i == 0 { "a" } else { "b" } }
 
 fn main() {
@@ -306,10 +192,6 @@ fn main() {
 			match guarded(std::panic::AssertUnwindSafe(|| probe_bad_raa(flip, n))) { Ok(Some(m)) => rec.oracle_fail(m), Ok(None) => { *reached_in.entry("bad_raa_refused".into()).or_insert(0) += 1; }, Err(p) => rec.oracle_fail(format!("bad-raa probe panicked: {}", p.chars().take(200).collect::<String>())) }
 		}
 		rec.notes.insert("bad_raa_probes_refused".into(), format!("{}", reached_in.get("bad_raa_refused").copied().unwrap_or(0)));
-	}
-	if args.model == "mongate" && std::env::var("VERIF_PROPERTY").map(|p| p == "C09").unwrap_or(true) {
-		for m in probe_open_orders() { rec.oracle_fail(m); }
-		match guarded(std::panic::AssertUnwindSafe(probe_channel_ready_leak)) { Ok(Some(m)) => rec.oracle_fail(m), Ok(None) => { rec.notes.insert("kf_c09_1".into(), "probe did not reproduce KF-C09-1 on this tree".into()); }, Err(p) => rec.oracle_fail(format!("channel_ready probe panicked: {}", p.chars().take(300).collect::<String>())) }
 	}
 	// the deterministic replay of KF-C01-1 belongs to property C01 only
 	if args.model == "chan" && std::env::var("VERIF_PROPERTY").map(|p| p == "C01").unwrap_or(true) {
@@ -365,9 +247,6 @@ fn main() {
 					_ => {},
 				}
 			}
-		} else if with_disc {
-			// the two-party protocol monitor does not model reestablish/retransmission yet: oracles + mongate only
-			rec.discarded += 1;
 		} else {
 			let first: Vec<u64> = net.trace.iter().filter_map(|o| if let Obs::Balance { node, value_to_self_msat, .. } = o { Some((*node, *value_to_self_msat)) } else { None }).take(2).map(|x| x.1).collect();
 			if first.len() < 2 { rec.discarded += 1; continue; }
@@ -415,6 +294,10 @@ fn main() {
 						rec.case(&format!("recv {}", nm(*to)), &format!("ok {} {}", k2, if *errors == 0 { "agree" } else { "DISAGREE" }), &format!("recv:{}", k2), true);
 					},
 					Obs::Balance { node, chan: 0, value_to_self_msat } => rec.case(&format!("bal {}", nm(*node)), &value_to_self_msat.to_string(), "bal", false),
+					// disconnection: everything queued is lost, both nodes pause the channel
+					Obs::Event { node: 0, text } if text == "DISCONNECT" => rec.case("disconnect", "ok", "disconnect", true),
+					// a node processes the peer's channel_reestablish (its retransmissions follow as release / raa ops)
+					Obs::Delivered { to, kind: "reestablish", chan: 0, errors, .. } => rec.case(&format!("reest {}", nm(*to)), if *errors == 0 { "ok" } else { "ERROR" }, "reest", true),
 					_ => {},
 				}
 			}
